@@ -218,6 +218,80 @@ class Driver:
         return out
 
 
+class Fault:
+    """Makes one kind of file-system call fail while the real save()/load() runs (from outside:
+    builtins.open / io.open / os.replace / os.rename are substituted for paths under `root`)."""
+
+    def __init__(self, root, how):
+        self.root = os.path.realpath(root) + os.sep
+        self.how = how          # open | write | replace | read | corrupt
+        self.hit = 0
+
+    def mine(self, p):
+        try:
+            return os.path.realpath(os.fspath(p)).startswith(self.root)
+        except TypeError:
+            return False
+
+    def _open(self, file, mode="r", *a, **kw):
+        writing = any(c in mode for c in "wax+")
+        if self.mine(file):
+            if writing and self.how == "open":
+                self.hit += 1
+                raise PermissionError(13, "injected: cannot open for writing", os.fspath(file))
+            if writing and self.how == "write":
+                fh = self.real_open(file, mode, *a, **kw)
+                outer = self
+
+                class W:
+                    def write(self_, data):
+                        outer.hit += 1
+                        raise OSError(28, "injected: no space left on device")
+
+                    def __getattr__(self_, n):
+                        return getattr(fh, n)
+
+                    def __enter__(self_):
+                        return self_
+
+                    def __exit__(self_, *e):
+                        fh.close()
+                        return False
+                return W()
+            if not writing and self.how == "read":
+                self.hit += 1
+                raise OSError(5, "injected: input/output error", os.fspath(file))
+            if not writing and self.how == "corrupt":
+                self.hit += 1
+                import io as _io
+                return _io.StringIO("{\"version\": 1, \"devi")
+        return self.real_open(file, mode, *a, **kw)
+
+    def _replace(self, src, dst, **kw):
+        if self.how == "replace" and (self.mine(src) or self.mine(dst)):
+            self.hit += 1
+            raise OSError(18, "injected: rename failed", os.fspath(src))
+        return self.real_replace(src, dst, **kw)
+
+    def __enter__(self):
+        import builtins
+        import io
+        self.real_open, self.real_io_open = builtins.open, io.open
+        self.real_replace, self.real_rename = os.replace, os.rename
+        builtins.open = self._open
+        io.open = self._open
+        os.replace = self._replace
+        os.rename = self._replace
+        return self
+
+    def __exit__(self, *a):
+        import builtins
+        import io
+        builtins.open, io.open = self.real_open, self.real_io_open
+        os.replace, os.rename = self.real_replace, self.real_rename
+        return False
+
+
 def canon(v):
     if isinstance(v, enum.Enum):
         v = v.value
@@ -286,6 +360,7 @@ class Hist:
         self.last = []              # contents at the last save/load (oracle for `changed`)
         self.insync = (kind == "memory") or self.init_canon is None
         self.flags = set()
+        self.failed_save = False    # a save() failed since the last successful save/load
 
     # ---- bookkeeping
     def handle_of(self, obj):
@@ -351,7 +426,12 @@ class Hist:
         want = self.contents() != self.last
         got = self.st.changed
         if got != want:
-            self.err("C14:changed:wrong", "changed is %s although the content %s what was last saved or loaded" % (got, "differs from" if want else "equals"))
+            if self.failed_save:
+                self.err("C14:changed:wrong-after-failed-save",
+                         "after a save() that failed, changed is %s although the content %s what was last saved or loaded"
+                         % (got, "differs from" if want else "equals"))
+            else:
+                self.err("C14:changed:wrong", "changed is %s although the content %s what was last saved or loaded" % (got, "differs from" if want else "equals"))
 
     def judge_roundtrip(self):
         if self.kind != "file" or not self.insync:
@@ -368,7 +448,9 @@ class Hist:
             declared = {(s, f[0]) for s, fl in self.drv.sections for f in fl}
             only_extra = len(a) == len(b) and all(
                 [(s, [(k, v) for k, v in kv if (s, k) in declared]) for s, kv in y] == x for x, y in zip(a, b))
-            if only_extra:
+            if self.failed_save and not only_extra:
+                self.err("C14:roundtrip:lost-after-failed-save", "a save() failed, the retry reported success, but a fresh storage does not load what is stored")
+            elif only_extra:
                 self.err("C14:roundtrip:undeclared-key-dropped", "a value stored under a key the settings schema does not declare is written to the file but not read back")
             else:
                 self.err("C14:roundtrip:content-differs", "settings read back after save() and load() differ from what was stored")
@@ -402,23 +484,44 @@ class Hist:
             elif k == "set":
                 setattr(drv.sub(self.handles[o["h"]], o["sec"]), o["key"], drv.pyval(o["sec"], o["key"], o["val"]))
                 obs = ("unit",)
-            elif k == "save":
+            elif k in ("save", "savefault"):
                 was_changed = st.changed
-                drv.run(st.save())
-                obs = ("unit",)
-                if self.kind == "memory" or was_changed:
-                    self.last = self.contents()
-                    self.insync = True
-                self.judge_roundtrip()
-            elif k == "load":
+                differs = self.contents() != self.last
+                if k == "savefault":
+                    with Fault(drv.root, o["at"]) as flt:
+                        try:
+                            drv.run(st.save())
+                        finally:
+                            self.flags.add("save-fault-hit" if flt.hit else "save-fault-not-reached")
+                            if flt.hit or differs:
+                                self.failed_save = True
+                    # (reached only when save() did not raise: nothing to write, or the fault was swallowed)
+                    obs = ("unit",)
+                    if self.kind == "file" and flt.hit:
+                        self.err("C14:save:failure-swallowed", "save() returned normally although writing the file failed")
+                else:
+                    drv.run(st.save())
+                    obs = ("unit",)
+                    if self.kind == "memory" or was_changed:
+                        self.last = self.contents()
+                        self.insync = True
+                    self.judge_roundtrip()
+                    self.failed_save = False
+            elif k in ("load", "loadfault"):
                 existed = self.kind == "file" and os.path.exists(self.path)
-                drv.run(st.load())
+                if k == "loadfault":
+                    with Fault(drv.root, o["how"]):
+                        drv.run(st.load())
+                else:
+                    drv.run(st.load())
                 obs = ("unit",)
                 if existed:
                     self.last = self.contents()
                     self.insync = True
+                    self.failed_save = False
             elif k == "fresh":
                 self.st = drv.storage(self.kind, self.path)
+                self.failed_save = False
                 self.last = []
                 self.insync = (self.kind == "memory") or not os.path.exists(self.path)
                 obs = ("unit",)
@@ -427,7 +530,10 @@ class Hist:
             else:
                 raise ValueError(k)
         except Exception as ex:
-            obs = ("raise", type(ex).__name__)
+            name = type(ex).__name__
+            if isinstance(ex, OSError) or name == "JSONDecodeError":
+                name = "Fault"
+            obs = ("raise", name)
         self.learn()
         self.ops.append(o)
         self.obs.append(obs)
@@ -492,10 +598,14 @@ def rand_op(rng, sections, nh, extra_pw):
         return {"op": "set", "h": rng.randrange(nh), "sec": sec, "key": f[0], "val": rand_val(rng, f)}
     if r < 0.74 and nh:
         return {"op": "remove", "h": rng.randrange(nh)}
-    if r < 0.84:
+    if r < 0.80:
         return {"op": "save"}
-    if r < 0.90:
+    if r < 0.85:
+        return {"op": "savefault", "at": rng.choice(["open", "write", "replace"])}
+    if r < 0.89:
         return {"op": "load"}
+    if r < 0.905:
+        return {"op": "loadfault", "how": rng.choice(["read", "corrupt"])}
     if r < 0.93:
         return {"op": "fresh"}
     return {"op": "changed"}
@@ -569,7 +679,8 @@ class Terms:
             return "Remove %d" % o["h"]
         if k == "set":
             return "SetF %d %s %s %s" % (o["h"], cname(o["sec"]), cname(o["key"]), self.val(o["val"]))
-        return {"save": "Save", "load": "Load", "fresh": "Fresh", "changed": "Changed"}[k]
+        return {"save": "Save", "load": "Load", "fresh": "Fresh", "changed": "Changed",
+                "savefault": "SaveFault", "loadfault": "LoadFault"}[k]
 
     def obs(self, x):
         if x[0] == "handle":
@@ -581,7 +692,8 @@ class Terms:
         if x[0] == "applied":
             return "OApplied %d %s" % (x[1], self.cfg(x[2]))
         if x[0] == "raise":
-            e = {"DeviceIdMissingError": "DeviceIdMissing", "SettingsError": "SettingsError", "ValueError": "ValueError"}.get(x[1])
+            e = {"DeviceIdMissingError": "DeviceIdMissing", "SettingsError": "SettingsError", "ValueError": "ValueError",
+                 "Fault": "Fault"}.get(x[1])
             if e is None:
                 raise KeyError(x[1])
             return "ORaise " + e
@@ -649,7 +761,7 @@ def small_alphabet():
         {"op": "remove", "h": 0}, {"op": "remove", "h": 1},
         {"op": "set", "h": 0, "sec": "mrp", "key": "credentials", "val": "c9"},
         {"op": "set", "h": 0, "sec": "mrp", "key": "credentials", "val": "c1"},
-        {"op": "save"}, {"op": "load"}, {"op": "fresh"},
+        {"op": "save"}, {"op": "load"}, {"op": "fresh"}, {"op": "savefault", "at": "replace"},
     ]
 
 
@@ -665,6 +777,21 @@ def histories(ctx, sections):
         for seq in itertools.product(range(len(alpha)), repeat=n):
             yield ("small", "file", None, [alpha[i] for i in seq])
     ctx.extra["small_alphabet_exhaustive_depth"] = depth
+    # a failed save, then retries and loads into fresh storages
+    a = {"p": "mrp", "id": "A", "cr": "c1", "pw": None}
+    b = {"p": "raop", "id": "B", "cr": "ü✓", "pw": "pw"}
+    setc = {"op": "set", "h": 0, "sec": "mrp", "key": "credentials", "val": "c9"}
+    for at in ("open", "write", "replace"):
+        f = {"op": "savefault", "at": at}
+        for pre in ([], [{"op": "get", "cfg": [b]}, {"op": "save"}]):
+            yield ("failed-save", "file", None, pre + [{"op": "get", "cfg": [a]}, f, {"op": "changed"}, {"op": "save"}, {"op": "fresh"}, {"op": "load"}, {"op": "scan", "cfg": [a]}])
+            yield ("failed-save", "file", None, pre + [{"op": "get", "cfg": [a]}, {"op": "save"}, setc, f, f, {"op": "changed"}, {"op": "fresh"}, {"op": "load"}, {"op": "changed"}])
+            yield ("failed-save", "file", None, pre + [{"op": "get", "cfg": [a]}, f, {"op": "remove", "h": 0}, {"op": "changed"}, f, {"op": "save"}])
+            yield ("failed-save", "file", None, pre + [{"op": "get", "cfg": [a]}, {"op": "save"}, setc, f, {"op": "load"}, {"op": "changed"}, {"op": "save"}])
+    for how in ("read", "corrupt"):
+        lf = {"op": "loadfault", "how": how}
+        yield ("failed-load", "file", None, [{"op": "get", "cfg": [a]}, {"op": "save"}, setc, lf, {"op": "changed"}, {"op": "save"}, {"op": "fresh"}, lf, {"op": "changed"}, {"op": "load"}])
+        yield ("failed-load", "file", (1, [[("mrp", [("identifier", "A"), ("credentials", "c1")])]]), [lf, {"op": "get", "cfg": [a]}, {"op": "load"}, {"op": "scan", "cfg": [a]}])
     # random
     total = 1200 if not ctx.thorough else 12000
     for i in range(total):
@@ -702,8 +829,9 @@ def run(ctx):
     ctx.build_property()
     if ctx.thorough:
         ctx.coqchk()
-    ctx.rule = ("histories of get/scan(get+apply)/update/remove/set-field/save/load/fresh-storage/changed on the real "
-                "MemoryStorage and FileStorage: the corpus, every sequence up to the stated depth over a 12-operation "
+    ctx.rule = ("histories of get/scan(get+apply)/update/remove/set-field/save/load/fresh-storage/changed and save/load with an "
+                "injected file-system fault (open, write or os.replace raising; read raising or yielding garbage) on the real "
+                "MemoryStorage and FileStorage: the corpus, every sequence up to the stated depth over a 13-operation "
                 "alphabet (two devices with overlapping identifiers), and seeded random histories of 1-11 operations over "
                 "configurations of 1-3 services with identifiers from a pool of 6 (incl. empty and non-ASCII), values incl. "
                 "None/empty/unicode/large ints/enum members; non-trivial = at least one record exists at the end or a file "
